@@ -280,6 +280,9 @@ class Interp:
             return And(Not(v.isnone), inner)
         if isinstance(v, (SObj, SOpaque, Closure, LibFn, BoundMethod)):
             return True
+        r = self.lib.truth_ext(self, v, node)
+        if r is not NotImplemented:
+            return r
         self.err(node, "truthiness of %r" % (v,))
 
     # ------------------------------------------------------------------ expressions
@@ -316,6 +319,8 @@ class Interp:
             return q
         if name in BUILTIN_EXC:
             return ExcClass(name)
+        if name == "NotImplemented":
+            return NOT_IMPLEMENTED
         if self.lib.has_builtin(name):
             return LibFn(name)
         self.err(node, "unknown name %r" % name)
@@ -367,6 +372,10 @@ class Interp:
             c = self.truth_term(v, node)
             return Not(c)
         if isinstance(node.op, ast.USub):
+            if isinstance(v, SObj):
+                r = self.lib.dunder(self, v, "__neg__", [], node)
+                if r is not NotImplemented:
+                    return r
             return self.binop("-", 0, v, node) if not isinstance(v, (SSeq, CList, SOpt, SObj)) else self.binop("*", -1, v, node)
         if isinstance(node.op, ast.UAdd):
             return v
@@ -473,6 +482,8 @@ class Interp:
         if isinstance(a, ExcClass) or isinstance(b, ExcClass) or isinstance(a, LibFn) or isinstance(b, LibFn):
             return self.lib.same_type(a, b)
         if isinstance(a, (SObj, SSeq, CList, CDict, SRange, SOpaque)) and isinstance(b, (SObj, SSeq, CList, CDict, SRange, SOpaque)):
+            return a is b
+        if isinstance(a, Sym) and isinstance(b, Sym) and not isinstance(a, (SInt, SReal, SBool)) and not isinstance(b, (SInt, SReal, SBool)):
             return a is b
         self.err(node, "`is` on %r / %r" % (a, b))
 
@@ -893,8 +904,24 @@ class Interp:
         return out
 
     # ------------------------------------------------------------------ loops
+    def loop_ordinal(self, node):
+        """static ordinal of a loop statement: its index among the for/while statements of the function under
+        verification, in source order (stable across paths)"""
+        table = getattr(self, "_loop_table", None)
+        if table is None:
+            table = self._loop_table = {}
+            root = getattr(self, "root_node", None)
+            if root is not None:
+                loops = [n for n in ast.walk(root) if isinstance(n, (ast.For, ast.While))]
+                loops.sort(key=lambda n: (n.lineno, n.col_offset))
+                for i, n in enumerate(loops):
+                    table[id(n)] = i
+        if id(node) in table:
+            return table[id(node)]
+        return -1 - self.loop_counter
+
     def s_While(self, node, env):
-        ordinal = self.loop_counter
+        ordinal = self.loop_ordinal(node)
         self.loop_counter += 1
         if node.orelse:
             self.err(node, "while/else")
@@ -925,7 +952,7 @@ class Interp:
         return self.loop_with_invariant(node, env, ordinal, inv, kind="while")
 
     def s_For(self, node, env):
-        ordinal = self.loop_counter
+        ordinal = self.loop_ordinal(node)
         self.loop_counter += 1
         if node.orelse:
             self.err(node, "for/else")
@@ -1050,6 +1077,14 @@ def _named(f):
     if isinstance(f, (list, tuple)):
         return [("c%d" % i, x) for i, x in enumerate(f)]
     return [("inv", f)]
+
+
+class _NI:
+    def __repr__(self):
+        return "NotImplemented"
+
+
+NOT_IMPLEMENTED = _NI()
 
 
 class _NL:
